@@ -1,0 +1,15 @@
+//go:build verif
+
+package http
+
+import "net"
+
+// VerifListen is set by the verification harness (build tag "verif" only).
+var VerifListen func(addr string) net.Listener
+
+func verifListen(addr string) net.Listener {
+	if f := VerifListen; f != nil {
+		return f(addr)
+	}
+	return nil
+}
